@@ -31,6 +31,43 @@ def simp(t):
     return tuple(simp(x) if isinstance(x, tuple) else x for x in t)
 
 
+def _is_region_end(t, of=None):
+    """tree = end address of a free region: ListNode::end_addr(r), or start_addr(r) + r.size when that helper was inlined"""
+    t = simp(t)
+    if t[0] == 'call' and t[1] == A + 'ListNode::end_addr':
+        return True
+    if t[0] == 'bin' and t[1] == 'Add':
+        parts = (simp(t[2]), simp(t[3]))
+        return any(p[0] == 'call' and p[1] == A + 'ListNode::start_addr' for p in parts) and any(p[0] == 'field' and p[2] == 'size' for p in parts)
+    return False
+
+
+def _mentions_region_end(t):
+    return any(_is_region_end(x) for x in walk(t))
+
+
+def _find_region_components(ctx, ff):
+    """roles of the components of the tuple find_region returns on success: index -> 'start' (the address computed by
+    alloc_from_region) / 'end' (end address of the removed region) / 'region' (the removed node itself)"""
+    roles = {}
+    for path, outcome, decs in fn_paths(ctx, ff):
+        if outcome != 'return':
+            continue
+        r = path_ret_resolved(ff, path)
+        tup = [x for x in walk(r) if x[0] == 'agg' and x[1] == 'tuple' and len(x[2]) == 2] if r else []
+        if not tup:
+            continue
+        for i, c in enumerate(tup[0][2]):
+            c = simp(c)
+            if any(x[0] == 'call' and x[1] == IN + '::alloc_from_region' for x in walk(c)):
+                roles.setdefault(i, 'start')
+            elif _mentions_region_end(c):
+                roles.setdefault(i, 'end')
+            elif 'ListNode' in show(c) or any(x[0] == 'call' and x[1].endswith(('Option::unwrap', 'Option::take')) for x in walk(c)):
+                roles.setdefault(i, 'region')
+    return roles
+
+
 def r1_aligned_pointer(ctx):
     ctx.set_rule('C15.R1')
     P = ctx.P
@@ -45,14 +82,16 @@ def r1_aligned_pointer(ctx):
     for path, outcome, decs in fn_paths(ctx, fa):
         if outcome != 'return':
             continue
-        r = path_ret(fa, path)
+        r = path_ret_resolved(fa, path)
         if not (r and r[0] == 'agg' and r[1].endswith('Result::Ok')):
             continue
         n += 1
         v = simp(r[2][0])
         while v[0] == 'cast':
             v = simp(v[2])
-        ok = v[0] == 'field' and v[2] == '1' and any(x[0] == 'call' and x[1] == IN + '::find_region' for x in walk(v))
+        roles = _find_region_components(ctx, ff)
+        j_start = next((str(i) for i, r_ in roles.items() if r_ == 'start'), None)
+        ok = v[0] == 'field' and v[2] == j_start and any(x[0] == 'call' and x[1] == IN + '::find_region' for x in walk(v))
         fr_call = [x for x in walk(v) if x[0] == 'call' and x[1] == IN + '::find_region']
         args_ok = False
         if fr_call:
@@ -66,7 +105,7 @@ def r1_aligned_pointer(ctx):
     for path, outcome, decs in fn_paths(ctx, ff):
         if outcome != 'return':
             continue
-        r = path_ret(ff, path)
+        r = path_ret_resolved(ff, path)
         if r and r[0] == 'call' and r[1] == IN + '::find_region':
             a1, a2 = peel(r[2][1]), peel(r[2][2])
             ctx.check(a1[0] == 'arg' and a2[0] == 'arg' and a1[2] == 'size' and a2[2] == 'align', 'find_region-retry', 'after adding a page find_region retries with the same size and alignment', ff.where_path(path))
@@ -76,7 +115,9 @@ def r1_aligned_pointer(ctx):
         if not tup:
             continue
         n += 1
-        b = simp(tup[0][2][1])
+        roles = _find_region_components(ctx, ff)
+        j_start = next((i for i, r_ in roles.items() if r_ == 'start'), 1)
+        b = simp(tup[0][2][j_start])
         call = [x for x in walk(b) if x[0] == 'call' and x[1] == IN + '::alloc_from_region']
         ok = b[0] == 'field' and bool(call) and peel(call[0][2][1])[0] == 'arg' and peel(call[0][2][1])[2] == 'size' and peel(call[0][2][2])[2] == 'align'
         ctx.check(ok, 'find_region-start-from-fit', "find_region hands out the start address computed by alloc_from_region for the region it removes", ff.where_path(path), show(b)[:200])
@@ -131,8 +172,8 @@ def r2_fit(ctx):
         for a in atoms:
             if a[0] == 'cmp':
                 op, l, rr = a[1], a[2], a[3]
-                l_end = any(x[0] == 'call' and x[1] == A + 'ListNode::end_addr' for x in walk(l))
-                r_end = any(x[0] == 'call' and x[1] == A + 'ListNode::end_addr' for x in walk(rr))
+                l_end = _mentions_region_end(l)
+                r_end = _mentions_region_end(rr)
                 l_alloc = any(x[0] == 'call' and x[1].endswith('::checked_add') for x in walk(l))
                 r_alloc = any(x[0] == 'call' and x[1].endswith('::checked_add') for x in walk(rr))
                 if (l_alloc and r_end and op == 'le') or (r_alloc and l_end and op == 'ge'):
@@ -140,7 +181,7 @@ def r2_fit(ctx):
         ctx.check(fit, 'fit-test', 'alloc_from_region accepts a region only if the aligned block ends at or before the region end', fr.where_path(path), [show_atom(a) for a in atoms if a[0] == 'cmp'])
         # remainder is 0 or >= size_of ListNode
         def _is_end(t):
-            return any(x[0] == 'call' and x[1] == A + 'ListNode::end_addr' for x in walk(t))
+            return _mentions_region_end(t)
         def _is_blockend(t):
             return any(x[0] == 'call' and x[1].endswith('::checked_add') for x in walk(t))
         rem = [a for a in atoms if a[0] == 'cmp' and (any(x[0] == 'bin' and x[1].startswith('Sub') for x in walk(a[2])) or
@@ -158,7 +199,15 @@ def r2_fit(ctx):
         addr = simp(fa.expr_operand(s.args[1], s.b, 'T'))
         size = simp(fa.expr_operand(s.args[2], s.b, 'T'))
         addr_ok = any(x[0] == 'call' and x[1].endswith('::checked_add') for x in walk(addr)) and any(x[0] == 'call' and x[1] == IN + '::find_region' for x in walk(addr))
-        size_ok = size[0] == 'bin' and size[1] == 'Sub' and any(x[0] == 'call' and x[1] == A + 'ListNode::end_addr' for x in walk(size[2])) and canon(size[3]) == canon(addr)
+        ffn = ctx.P.fns.get(IN + '::find_region')
+        roles = _find_region_components(ctx, ffn) if ffn else {}
+        k_end = next((str(i) for i, r_ in roles.items() if r_ == 'end'), None)
+        end_ok = _mentions_region_end(size[2]) if size[0] == 'bin' else False
+        if size[0] == 'bin' and not end_ok and k_end is not None:
+            # the region end travels as a component of find_region's result
+            e = simp(size[2])
+            end_ok = e[0] == 'field' and e[2] == k_end and any(x[0] == 'call' and x[1] == IN + '::find_region' for x in walk(e))
+        size_ok = size[0] == 'bin' and size[1] == 'Sub' and end_ok and canon(size[3]) == canon(addr)
         ctx.check(addr_ok and size_ok, 'remainder-extent',
                   'the free remainder handed back is exactly [block end, region end): it starts at alloc_start + size and its length is region.end_addr() - block end '
                   '(any other length lets the free list reach into a neighbouring live block when the block was padded for alignment)', s.where(),
@@ -223,6 +272,9 @@ def r3_size_agreement(ctx):
         ctx.check(len(wr) == 1 and len(al) == 1, 'box-init', 'LocalBox::new_in writes the value into the freshly allocated block', fn.where())
 
 
+LEAKS = ('std::mem::forget', 'std::mem::ManuallyDrop::new')   # giving up ownership of a box without freeing it
+
+
 def r4_node_typestate(ctx):
     ctx.set_rule('C15.R4')
     P = ctx.P
@@ -234,16 +286,18 @@ def r4_node_typestate(ctx):
                 continue
             n += 1
             evs = path_stream(f, path, decs)
-            forget = [i for i, e in enumerate(evs) if e[0] == 'c' and e[1].name == 'std::mem::forget']
+            forget = [i for i, e in enumerate(evs) if e[0] == 'c' and e[1].name in LEAKS]
             atoms = [e[1] for e in evs if e[0] == 'atom']
             ok = len(forget) == 1
             if ok:
-                before = evs[:forget[0]]
+                # the node is handed to the chain exactly once and both neighbours are redirected on the same path (in either order:
+                # a box leaked first can no longer be freed by an unwinding panic, a box leaked last is linked by then)
+                before = evs
                 st_next = [e for e in before if e[0] == 'w' and e[2] == 'next' and e[4] is not None and _is_node_ptr(e[4])]
                 st_prev = [e for e in before if e[0] == 'w' and e[2] == 'prev' and e[4] is not None and _is_node_ptr(e[4])]
                 null_prev = _null_decisions(atoms)
                 ok = (len(st_next) >= 1 or null_prev >= 1) and (len(st_prev) >= 1 or null_prev >= 1) and (len(st_next) + len(st_prev) + null_prev >= 2)
-            ctx.check(ok, 'forget-after-linking', 'DualLinkedList::add leaks the node box to the list only after both neighbours point at it', f.where_path(path))
+            ctx.check(ok, 'forget-after-linking', 'DualLinkedList::add hands the node box over to the list exactly once, and both neighbours point at it when add returns', f.where_path(path))
         ctx.floor('returning paths of DualLinkedList::add', n, 1)
     for key in (L + '::cancel', L + '::pop_min'):
         f = ctx.anchor(key)
@@ -261,7 +315,7 @@ def r4_node_typestate(ctx):
             after = evs[rebox[-1]:]
             kill = [i for i, e in enumerate(after) if (e[0] == 'c' and e[1].name in ('std::mem::drop', 'des_cqueue::stable::linked_list::EventNode::into_inner')) or
                     (e[0] == 'd' and 'LocalBox' in e[2])]
-            forget = [i for i, e in enumerate(after) if e[0] == 'c' and e[1].name == 'std::mem::forget']
+            forget = [i for i, e in enumerate(after) if e[0] == 'c' and e[1].name in LEAKS]
             if forget and not kill:
                 ctx.ok('%s: the re-boxed sentinel is forgotten (still owned by the list)' % short(key), f.where_path(path))
                 continue
@@ -353,6 +407,13 @@ def r5_drain_before_allocator(ctx):
             dr = [s for s in fd.calls() if s.name == 'std::vec::Vec::drain' and receiver_field(fd.expr_operand(s.args[0], s.b, 'T')) == names[buck_i]]
             full = bool(dr) and any(x[0] == 'agg' and 'RangeFull' in x[1] for x in walk(fd.expr_operand(dr[0].args[1], dr[0].b, 'T')))
             ok = full
+            if not ok:
+                # equivalent: the whole vector is moved out (mem::take / mem::replace with an empty Vec) and dropped inside drop()
+                for s2 in fd.calls():
+                    if s2.name in ('std::mem::take', 'std::mem::replace') and s2.args and receiver_field(fd.expr_operand(s2.args[0], s2.b, 'T')) == names[buck_i]:
+                        if s2.name == 'std::mem::take' or any(x[0] == 'call' and x[1].endswith('Vec::new') for x in walk(fd.expr_operand(s2.args[1], s2.b, 'T'))):
+                            # the moved-out value must not escape: drop() returns () and does not store it back
+                            ok = not any(e for e in fd.writes_to_field(names[buck_i]))
         ctx.check(ok, 'drain-before-allocator', 'the allocator field is declared (and dropped) before the bucket vector, so CQueue::drop drains every bucket first',
                   fd.where() if fd else None, {'alloc_field_index': alloc_i, 'buckets_field_index': buck_i})
     else:
